@@ -256,12 +256,16 @@ fn corrupt(rng: &mut Rng, src: &[u8]) -> Vec<u8> {
             let cut = if rng.bool() { 4 * rng.urange(1, 4) } else { rng.urange(1, v.len() - 1) };
             v.truncate(v.len().saturating_sub(cut).max(1));
         }
-        1 => v.extend(rng.bytes(4 * rng.urange(1, 3))),
+        1 => {
+            let n = 4 * rng.urange(1, 3);
+            v.extend(rng.bytes(n));
+        }
         2 | 3 if !v.is_empty() => {
             // corrupt the root object (last 8 bytes: length/offset or inline bytes)
             let n = v.len();
             let i = n - 1 - rng.usize(n.min(8));
-            v[i] = *rng.pick(&[0u8, 0xff, 0x80, 0x7f, 1, rng.u64() as u8]);
+            let r = rng.u64() as u8;
+            v[i] = *rng.pick(&[0u8, 0xff, 0x80, 0x7f, 1, r]);
         }
         4 if !v.is_empty() => {
             let i = rng.usize(v.len());
@@ -474,4 +478,558 @@ fn check_input(m: &mut Monitor, bytes: &[u8], rng: &mut Rng, mutations: usize) {
         check_archive_case(cx, &bad, "corrupt");
         cx.case = saved;
     }
+}
+
+// ---------------------------------------------------------------------------
+// Input generator
+// ---------------------------------------------------------------------------
+
+const EDGE_LENS: &[usize] = &[1, 2, 7, 8, 9, 15, 16, 21, 22, 23, 24, 25, 31, 32, 33, 44, 45, 46, 63, 64, 255, 256, 257];
+
+fn gen_len(rng: &mut Rng) -> usize {
+    match rng.below(4) {
+        0 => *rng.pick(EDGE_LENS),
+        1 => rng.urange(MAX_INLINE - 2, MAX_INLINE + 2),
+        _ => rng.urange(0, 48),
+    }
+}
+
+fn gen_ident(rng: &mut Rng, len: usize) -> String {
+    const HEAD: &[u8] = b"abcdefghijklmnopqrstuvwxyzABCDEFGHIJKLMNOPQRSTUVWXYZ";
+    const TAIL: &[u8] = b"abcdefghijklmnopqrstuvwxyzABCDEFGHIJKLMNOPQRSTUVWXYZ0123456789_";
+    let len = len.max(1);
+    let mut s = String::with_capacity(len);
+    s.push(*rng.pick(HEAD) as char);
+    for _ in 1..len {
+        s.push(*rng.pick(TAIL) as char);
+    }
+    s
+}
+
+fn gen_ascii(rng: &mut Rng, len: usize) -> String {
+    (0..len).map(|_| (0x20 + rng.below(0x5f) as u8) as char).collect()
+}
+
+fn gen_char(rng: &mut Rng) -> char {
+    match rng.below(10) {
+        0 => *rng.pick(&['é', 'ß', 'ñ', 'Ω', 'ж']),
+        1 => *rng.pick(&['€', '\u{2028}', '\u{feff}', '中', '\u{ffff}', '\u{fffd}']),
+        2 => *rng.pick(&['😀', '\u{10000}', '\u{10ffff}']),
+        3 => *rng.pick(&['"', '\\', '/', '\n', '\t', '\r', '\u{1}', '\u{7f}', '\u{80}', '\u{ff}']),
+        4 => char::from_u32(rng.below(0x11_0000) as u32).unwrap_or('x'),
+        _ => (0x20 + rng.below(0x5f) as u8) as char,
+    }
+}
+
+/// Unicode string of exactly `len` bytes when possible (pads with ASCII).
+fn gen_unicode(rng: &mut Rng, len: usize) -> String {
+    let mut s = String::with_capacity(len + 4);
+    while s.len() < len {
+        let c = gen_char(rng);
+        if c != '\0' && s.len() + c.len_utf8() <= len {
+            s.push(c);
+        } else if c != '\0' {
+            s.push('x');
+        }
+    }
+    s
+}
+
+fn insert_at(rng: &mut Rng, s: &str, what: &str, place: u64) -> String {
+    let mut idx = match place {
+        0 => 0,
+        1 => s.len(),
+        _ => rng.usize(s.len() + 1),
+    };
+    while !s.is_char_boundary(idx) {
+        idx -= 1;
+    }
+    format!("{}{what}{}", &s[..idx], &s[idx..])
+}
+
+fn gen_input(rng: &mut Rng, max_long: usize) -> (&'static str, Vec<u8>) {
+    let len = gen_len(rng);
+    match rng.weighted(&[1, 8, 10, 10, 10, 6, 6, 10, 1, 5]) {
+        0 => ("empty", vec![]),
+        1 => ("ascii", gen_ascii(rng, len).into_bytes()),
+        2 => ("ident", gen_ident(rng, len).into_bytes()),
+        3 => {
+            // near-identifier
+            let base = gen_ident(rng, len);
+            let s = match rng.below(9) {
+                0 => format!("{}{}", rng.below(10), &base[1..]),
+                1 => format!("_{}", &base[1..]),
+                2 => {
+                    let w = *rng.pick(&["é", "ａ", "Ω", "\u{200b}", "😀"]);
+                    insert_at(rng, &base, w, 2)
+                }
+                3 => {
+                    let w = *rng.pick(&["-", " ", ".", "$", "\n", "\u{7f}", "@"]);
+                    insert_at(rng, &base, w, 2)
+                }
+                4 => {
+                    let pl = rng.below(3);
+                    insert_at(rng, &base, "\0", pl)
+                }
+                5 => format!("{base}{}", *rng.pick(&[" ", "-", "\0", "é", "\n"])),
+                6 => format!("{}{}", *rng.pick(&["é", "Ａ", " ", "-", "\0"]), base),
+                7 => rng.pick(&["_", "0", "9a", "__a", "a\0", "\0a", "a b", "A_0", "Z", "z9_"]).to_string(),
+                _ => base.to_uppercase(),
+            };
+            ("near-ident", s.into_bytes())
+        }
+        4 => {
+            // NUL placement
+            let base = if rng.bool() { gen_unicode(rng, len) } else { gen_ascii(rng, len) };
+            let s = match rng.below(6) {
+                0 => insert_at(rng, &base, "\0", 0),
+                1 => insert_at(rng, &base, "\0", 1),
+                2 => insert_at(rng, &base, "\0", 2),
+                3 => "\0".repeat(rng.urange(1, 30)),
+                4 => {
+                    let t = insert_at(rng, &base, "\0", 2);
+                    insert_at(rng, &t, "\0", 2)
+                }
+                // NUL exactly at / next to the inline threshold
+                _ => {
+                    let mut b = gen_ascii(rng, MAX_INLINE + 2).into_bytes();
+                    let i = rng.urange(MAX_INLINE - 2, MAX_INLINE + 1);
+                    b[i] = 0;
+                    b.truncate(rng.urange(i + 1, MAX_INLINE + 2));
+                    String::from_utf8(b).unwrap()
+                }
+            };
+            ("nul", s.into_bytes())
+        }
+        5 => {
+            let n = rng.urange(1, 40);
+            ("random-bytes", rng.bytes(n))
+        }
+        6 => {
+            // valid UTF-8 broken by one bad sequence
+            let mut b = gen_unicode(rng, len).into_bytes();
+            let bad: &[u8] = *rng.pick(&[&[0xffu8][..], &[0xc0, 0x80], &[0xe2, 0x82], &[0xed, 0xa0, 0x80], &[0xf8], &[0x80], &[0xc0, 0x00]]);
+            let at = match rng.below(3) {
+                0 => 0,
+                1 => b.len(),
+                _ => rng.usize(b.len() + 1),
+            };
+            b.splice(at..at, bad.iter().copied());
+            ("broken-utf8", b)
+        }
+        7 => ("unicode", gen_unicode(rng, len).into_bytes()),
+        8 => {
+            let n = rng.urange(max_long / 4, max_long).max(64);
+            let mut s = match rng.below(3) {
+                0 => gen_ident(rng, n),
+                1 => gen_ascii(rng, n),
+                _ => gen_unicode(rng, n),
+            };
+            if rng.chance(1, 3) {
+                let pl = rng.below(3);
+                s = insert_at(rng, &s, "\0", pl);
+            }
+            ("long", s.into_bytes())
+        }
+        _ => {
+            // JSON-sensitive text: escapes spelled out literally, quotes, backslashes.
+            let base = gen_ascii(rng, len.min(40));
+            let what = *rng.pick(&["\\u0000", "\\\\u0000", "\"", "\\", "\\ud800", "\\n", "\\x00", "\\0"]);
+            ("json-sensitive", insert_at(rng, &base, what, 2).into_bytes())
+        }
+    }
+}
+
+// ---------------------------------------------------------------------------
+// Eq / Ord / Hash across representations
+// ---------------------------------------------------------------------------
+
+/// Literals that become `Static` representations through `text!`. L22 + "a" == L23 so that a
+/// static, an inline+Add-made heap and a parsed heap value of identical content meet.
+macro_rules! text_lits {
+    ($($l:literal),* $(,)?) => { vec![$(($l, text!($l))),*] };
+}
+macro_rules! ident_lits {
+    ($($l:literal),* $(,)?) => { vec![$(($l, ident!($l))),*] };
+}
+
+static STATIC_SHORT: Text = text!("static short");
+static STATIC_LONG: Text = text!("a static text that is longer than the inline capacity");
+const CONST_IDENT: Identifier = ident!("const_identifier_longer_than_inline_cap");
+
+fn static_texts() -> Vec<(&'static str, Text)> {
+    let mut v = text_lits![
+        "", "a", "b", "ab", "abcdefg", "abcdefgh", "abcdefghi",
+        "abcdefghijklmnopqrstu", "abcdefghijklmnopqrstuv", "abcdefghijklmnopqrstuva",
+        "abcdefghijklmnopqrstuvb", "abcdefghijklmnopqrstuvwx", "abcdefghijklmnopqrstuw",
+        "ééééééééééé", "éééééééééééa", "ééééééééééé€", "zz", "Z", "~", "\u{10ffff}",
+        "the quick brown fox jumps over the lazy dog", "the quick brown fox jumps over the lazy doh",
+        "static short", "a static text that is longer than the inline capacity",
+    ];
+    v.push(("", text!()));
+    v.push(("", Text::new()));
+    v.push(("", Text::default()));
+    v.push(("static short", STATIC_SHORT.clone()));
+    v.push(("a static text that is longer than the inline capacity", STATIC_LONG.clone()));
+    v
+}
+
+fn static_idents() -> Vec<(&'static str, Identifier)> {
+    let mut v = ident_lits![
+        "a", "b", "A", "ab", "a_", "a0", "abcdefgh", "abcdefghi",
+        "abcdefghijklmnopqrstu", "abcdefghijklmnopqrstuv", "abcdefghijklmnopqrstuva",
+        "abcdefghijklmnopqrstuvb", "abcdefghijklmnopqrstuw", "Abcdefghijklmnopqrstuv",
+        "a_very_long_identifier_0123456789_ABCDEFGHIJKLMNOPQRSTUVWXYZ",
+        "a_very_long_identifier_0123456789_ABCDEFGHIJKLMNOPQRSTUVWXYz",
+        "const_identifier_longer_than_inline_cap",
+    ];
+    v.push(("const_identifier_longer_than_inline_cap", CONST_IDENT));
+    v
+}
+
+struct Entry<T> {
+    v: T,
+    /// "static" | "inline" | "heap", known by construction (literal vs parsed, length).
+    repr: &'static str,
+    how: &'static str,
+}
+
+fn parsed_repr(s: &str) -> &'static str {
+    if s.len() <= MAX_INLINE { "inline" } else { "heap" }
+}
+
+trait Val: Clone + Eq + Ord + std::hash::Hash + PartialEq<str> + for<'a> PartialEq<&'a str> {
+    fn s(&self) -> &str;
+    fn ceq(&self, o: &Self) -> bool;
+}
+impl Val for Text {
+    fn s(&self) -> &str { self.as_str() }
+    fn ceq(&self, o: &Self) -> bool { self.const_eq(o) }
+}
+impl Val for Identifier {
+    fn s(&self) -> &str { self.as_str() }
+    fn ceq(&self, o: &Self) -> bool { self.const_eq(o) }
+}
+
+fn related(a: &str, b: &str) -> bool {
+    let common = a.bytes().zip(b.bytes()).take_while(|(x, y)| x == y).count();
+    common + 1 >= a.len().min(b.len())
+}
+
+fn check_pairs<T: Val>(m: &mut Monitor, kind: Kind, pool: &[Entry<T>], case: &Value) {
+    let hashes: Vec<u64> = pool.iter().map(|e| hash_of(&e.v)).collect();
+    for e in pool {
+        m.count(&format!("pool_{}_{}", kind.name(), e.repr), 1);
+        if !kind.inv(e.v.s()) {
+            m.violation(&format!("{}-invariant-broken-in-pool:{}", kind.name(), e.how),
+                json!({"case": case, "value_hex": hex(e.v.s().as_bytes())}));
+        }
+        if hash_of(&e.v) != hash_of(&e.v.s()) {
+            m.count("hash_differs_from_str_hash", 1);
+        }
+    }
+    for (i, a) in pool.iter().enumerate() {
+        for (j, b) in pool.iter().enumerate() {
+            let (sa, sb) = (a.v.s(), b.v.s());
+            m.eval();
+            let r = catch(|| {
+                let mut bad: Vec<&'static str> = vec![];
+                if (a.v == b.v) != (sa == sb) || (a.v != b.v) != (sa != sb) { bad.push("eq"); }
+                if a.v.cmp(&b.v) != sa.cmp(sb) { bad.push("cmp"); }
+                if a.v.partial_cmp(&b.v) != Some(sa.cmp(sb)) { bad.push("partial_cmp"); }
+                if (a.v < b.v) != (sa < sb) || (a.v >= b.v) != (sa >= sb) { bad.push("lt-ge"); }
+                if a.v.ceq(&b.v) != (sa == sb) { bad.push("const_eq"); }
+                if (a.v == *sb) != (sa == sb) { bad.push("eq-str"); }
+                if (a.v == sb) != (sa == sb) { bad.push("eq-ref-str"); }
+                if sa == sb && hashes[i] != hashes[j] { bad.push("hash"); }
+                bad
+            });
+            let pair = || json!({"case": case, "a_hex": hex(sa.as_bytes()), "a_repr": a.repr, "a_how": a.how,
+                                 "b_hex": hex(sb.as_bytes()), "b_repr": b.repr, "b_how": b.how});
+            match r {
+                Ok(bad) => {
+                    for what in bad {
+                        let (x, y) = if a.repr <= b.repr { (a.repr, b.repr) } else { (b.repr, a.repr) };
+                        m.violation(&format!("{}-{what}-disagrees-with-str:{x}-vs-{y}", kind.name()), pair());
+                    }
+                }
+                Err(p) => m.violation(&format!("text-compare-panic:{}", p.site()), json!({"pair": pair(), "panic": p.what})),
+            }
+            if a.repr != b.repr {
+                let (x, y) = if a.repr <= b.repr { (a.repr, b.repr) } else { (b.repr, a.repr) };
+                if sa == sb {
+                    m.count(&format!("pairs_equal_{x}_{y}"), 1);
+                } else {
+                    m.count(&format!("pairs_differ_{x}_{y}"), 1);
+                }
+                if related(sa, sb) {
+                    m.nontrivial(hash_of(&("pair", kind.name(), a.repr, b.repr, sa, sb)));
+                }
+            } else if sa == sb && i != j {
+                m.count(&format!("pairs_equal_{}_{}", a.repr, b.repr), 1);
+            }
+            let _ = Ordering::Equal;
+        }
+    }
+}
+
+fn variants(rng: &mut Rng, s: &str, ident: bool) -> Vec<String> {
+    let mut out = vec![s.to_owned()];
+    out.push(format!("{s}a"));
+    out.push(format!("{s}{}", if ident { "_" } else { "~" }));
+    if s.len() > 1 && s.is_char_boundary(s.len() - 1) {
+        out.push(s[..s.len() - 1].to_owned());
+        out.push(format!("{}{}", &s[..s.len() - 1], if ident { 'Q' } else { '!' }));
+    }
+    if !s.is_empty() && rng.bool() {
+        let pad = if ident { gen_ident(rng, MAX_INLINE) } else { gen_ascii(rng, MAX_INLINE) };
+        out.push(format!("{s}{pad}"));
+    }
+    out
+}
+
+/// One pool round: statics + parsed twins + neighbours + random values + Add / serde / rkyv made
+/// values, then the all-pairs oracle for Text and for Identifier.
+fn pool_round(m: &mut Monitor, seed: u64, round: u64) {
+    let mut rng = Rng::new(seed).fork(0x9001).fork(round);
+    let case = json!({"kind": "pool", "seed": seed, "round": round});
+    let mut tp: Vec<Entry<Text>> = vec![];
+    let mut ip: Vec<Entry<Identifier>> = vec![];
+    let mut tstr: Vec<String> = vec![];
+    let mut istr: Vec<String> = vec![];
+    for (s, t) in static_texts() {
+        tp.push(Entry { v: t, repr: "static", how: "text!" });
+        tstr.extend(variants(&mut rng, s, false));
+    }
+    for (s, t) in static_idents() {
+        tp.push(Entry { v: Text::from(t.clone()), repr: "static", how: "Text::from(ident!)" });
+        ip.push(Entry { v: t, repr: "static", how: "ident!" });
+        istr.extend(variants(&mut rng, s, true));
+    }
+    for _ in 0..12 {
+        let n = rng.urange(MAX_INLINE - 3, MAX_INLINE + 3);
+        let base = gen_ident(&mut rng, n);
+        istr.extend(variants(&mut rng, &base, true));
+        let base = if rng.bool() { gen_unicode(&mut rng, n) } else { gen_ascii(&mut rng, n) };
+        tstr.extend(variants(&mut rng, &base, false));
+    }
+    tstr.extend(istr.iter().take(20).cloned());
+    for s in &tstr {
+        let Ok(t) = Text::from_str(s) else { continue };
+        let repr = parsed_repr(s);
+        match rng.below(5) {
+            0 => {
+                if let Ok(x) = serde_json::from_str::<Text>(&serde_json::to_string(s).unwrap()) {
+                    tp.push(Entry { v: x, repr, how: "serde_json" });
+                }
+            }
+            1 => {
+                if let Ok(x) = rkyv::to_bytes::<RErr>(&t).and_then(|b| rkyv::from_bytes::<Text, RErr>(&b)) {
+                    tp.push(Entry { v: x, repr, how: "rkyv" });
+                }
+            }
+            2 if s.len() > 2 => {
+                let mut cut = rng.urange(1, s.len() - 1);
+                while !s.is_char_boundary(cut) { cut -= 1; }
+                if let (Ok(a), Ok(b)) = (Text::from_str(&s[..cut]), Text::from_str(&s[cut..])) {
+                    tp.push(Entry { v: &a + &b, repr, how: "add" });
+                }
+            }
+            3 => tp.push(Entry { v: t.clone(), repr, how: "clone" }),
+            _ => {}
+        }
+        tp.push(Entry { v: t, repr, how: "from_str" });
+    }
+    for s in &istr {
+        let Ok(t) = Identifier::from_str(s) else { continue };
+        let repr = parsed_repr(s);
+        match rng.below(4) {
+            0 => {
+                if let Ok(x) = postcard::from_bytes::<Identifier>(&postcard_str_frame(s.as_bytes())) {
+                    ip.push(Entry { v: x, repr, how: "postcard" });
+                }
+            }
+            1 => {
+                if let Ok(x) = rkyv::to_bytes::<RErr>(&t).and_then(|b| rkyv::from_bytes::<Identifier, RErr>(&b)) {
+                    ip.push(Entry { v: x, repr, how: "rkyv" });
+                }
+            }
+            2 => {
+                if let Ok(x) = Identifier::try_from(Text::from_str(s).unwrap()) {
+                    ip.push(Entry { v: x, repr, how: "try_from-Text" });
+                }
+            }
+            _ => {}
+        }
+        ip.push(Entry { v: t, repr, how: "from_str" });
+    }
+    // The representation assumed by construction is confirmed from outside where that is possible.
+    for e in &tp {
+        if !e.v.is_empty() {
+            let inl = stored_inline(&e.v, e.v.as_str());
+            if inl != (e.repr == "inline") {
+                m.count("repr_not_as_expected", 1);
+            } else {
+                m.count(if inl { "repr_inline_confirmed" } else { "repr_out_of_line_confirmed" }, 1);
+            }
+        }
+    }
+    check_pairs(m, Kind::Text, &tp, &case);
+    check_pairs(m, Kind::Ident, &ip, &case);
+    m.sample(|| json!({"pool_round": round, "texts": tp.len(), "idents": ip.len(),
+        "example": tp.iter().rev().take(3).map(|e| json!({"s": e.v.as_str(), "repr": e.repr, "how": e.how})).collect::<Vec<_>>()}));
+}
+
+// ---------------------------------------------------------------------------
+// Concatenation
+// ---------------------------------------------------------------------------
+
+fn check_add(m: &mut Monitor, a: &str, b: &str, a_static: Option<&Text>) {
+    let mut cx = Ctx { m, case: json!({"kind": "add", "a_hex": hex(a.as_bytes()), "b_hex": hex(b.as_bytes()), "a_static": a_static.is_some()}) };
+    let (Ok(ta), Ok(tb)) = (Text::from_str(a), Text::from_str(b)) else { return };
+    let ta = a_static.cloned().unwrap_or(ta);
+    let want = format!("{a}{b}");
+    let ok = drive(&mut cx, Kind::Text, "add", Some(&want), Some(true), || {
+        let z = &ta + &tb;
+        // operands stay intact
+        if ta.as_str() != a || tb.as_str() != b { return Err(()); }
+        Ok(z.as_str().to_owned())
+    });
+    if !ok {
+        cx.viol("text-add-failed-or-changed-operand", json!(null));
+    }
+    if a.len() <= MAX_INLINE && b.len() <= MAX_INLINE && want.len() > MAX_INLINE {
+        cx.m.count("add_inline_to_heap", 1);
+    }
+    if want.len() <= MAX_INLINE {
+        cx.m.count("add_stays_inline", 1);
+    }
+    cx.m.nontrivial(hash_of(&("add", a, b)));
+}
+
+// ---------------------------------------------------------------------------
+// Driver
+// ---------------------------------------------------------------------------
+
+const SHARDS: u64 = 32;
+
+fn run_shard(m: &mut Monitor, seed: u64, shard: u64, inputs: u64, max_long: usize, mutations: usize) {
+    let mut rng = Rng::new(seed).fork(32).fork(shard);
+    let mut prev: Vec<String> = vec![];
+    for n in 0..inputs {
+        let (class, bytes) = gen_input(&mut rng, max_long);
+        m.count(&format!("class_{class}"), 1);
+        check_input(m, &bytes, &mut rng, mutations);
+        let utf8 = std::str::from_utf8(&bytes).ok();
+        if !bytes.is_empty() && utf8.is_some() {
+            // valid UTF-8: acceptance / rejection was decided by the validators, not by decoding
+            m.nontrivial(hash_of(&bytes));
+        }
+        if let Some(s) = utf8 {
+            if text_inv(s) && s.len() <= 300 {
+                if let Some(p) = prev.get(rng.usize(prev.len().max(1))) {
+                    check_add(m, p, s, None);
+                    check_add(m, s, p, None);
+                }
+                if prev.len() < 16 { prev.push(s.to_owned()); } else { let i = rng.usize(16); prev[i] = s.to_owned(); }
+                if n % 64 == 0 {
+                    check_add(m, STATIC_SHORT.as_str(), s, Some(&STATIC_SHORT));
+                    check_add(m, STATIC_LONG.as_str(), s, Some(&STATIC_LONG));
+                    check_add(m, "", s, Some(&Text::new()));
+                }
+            }
+        }
+        if shard == 0 && n < 3 {
+            m.sample(|| json!({"class": class, "input_hex": hex(&bytes[..bytes.len().min(64)]), "len": bytes.len()}));
+        }
+    }
+}
+
+fn replay(m: &mut Monitor, r: &Value, seed: u64) {
+    // violation detail is {"case": {...}, "info": ...}; replay file wraps it in "case" again.
+    let mut c = &r["case"];
+    while c["case"].is_object() {
+        c = &c["case"];
+    }
+    if c["pair"]["case"].is_object() {
+        c = &c["pair"]["case"];
+    }
+    let bytes = |k: &str| unhex(c[k].as_str().unwrap_or("")).unwrap_or_default();
+    match c["kind"].as_str() {
+        Some("input") => check_input(m, &bytes("hex"), &mut Rng::new(seed), 0),
+        Some("archive") => {
+            let mut cx = Ctx { m, case: c.clone() };
+            check_archive_case(&mut cx, &bytes("hex"), "corrupt");
+        }
+        Some("pool") => pool_round(m, c["seed"].as_u64().unwrap_or(seed), c["round"].as_u64().unwrap_or(0)),
+        Some("add") => {
+            let (a, b) = (bytes("a_hex"), bytes("b_hex"));
+            let (a, b) = (String::from_utf8_lossy(&a).into_owned(), String::from_utf8_lossy(&b).into_owned());
+            let st = if c["a_static"].as_bool() == Some(true) {
+                [&STATIC_SHORT, &STATIC_LONG].into_iter().find(|t| t.as_str() == a).cloned().or(Some(Text::new()))
+            } else {
+                None
+            };
+            check_add(m, &a, &b, st.as_ref());
+        }
+        other => panic!("unknown replay case kind {other:?}"),
+    }
+}
+
+fn main() {
+    let args = Args::parse();
+    let mut m = Monitor::new(
+        "C32",
+        "inputs = generated byte strings (empty, ASCII, identifiers, near-identifiers with leading digit/underscore/unicode/NUL, NUL at start/middle/end, random bytes, broken UTF-8, unicode, long, JSON-sensitive; lengths biased to the 22-byte inline and 8-byte rkyv-inline thresholds) pushed through FromStr, TryFrom<String>/<Text>/<&CStr>, From<Identifier>, Clone, serde_json (plain, all-escaped, Value, reader, raw bytes), postcard (valid and invalid UTF-8, truncated), rkyv access/deserialize/from_bytes on honest, hostile (String archive read as Text/Identifier) and corrupted archives, and Add; plus pools of static (text!/ident!), inline and heap values compared pairwise (eq, cmp, const_eq, PartialEq<str>, hash) against str. non-trivial = distinct valid-UTF-8 non-empty input (outcome decided by the validator), distinct Add operand pair, or distinct cross-representation pair with related contents (equal / prefix / last byte differs)",
+    )
+    .min(200)
+    .require("ok_text_from_str", "Text accepted")
+    .require("err_text_from_str", "Text with NUL refused")
+    .require("ok_ident_from_str", "Identifier accepted")
+    .require("err_ident_from_str", "Identifier refused")
+    .require("json_nul_rejected", "escaped NUL reached the Text deserializer")
+    .require("postcard_nul_rejected", "NUL through postcard")
+    .require("postcard_invalid_utf8", "invalid UTF-8 through postcard")
+    .require("cstr_ok", "CStr conversion")
+    .require("cstr_invalid_utf8", "CStr with invalid UTF-8")
+    .require("rkyv_hostile_nul_rejected", "archive of a string with NUL accessed as Text")
+    .require("rkyv_hostile_bad_ident_rejected", "archive of a non-identifier accessed as Identifier")
+    .require("rkyv_corrupt_accepted", "some corrupted archives still validate (invariant checked on them)")
+    .require("rkyv_corrupt_rejected", "some corrupted archives are refused")
+    .require("ok_text_rkyv-deserialize-honest", "rkyv deserialize")
+    .require("add_inline_to_heap", "concatenation crossing the inline threshold")
+    .require("pairs_equal_inline_static", "equal content, static vs inline")
+    .require("pairs_equal_heap_static", "equal content, static vs heap")
+    .require("pairs_differ_heap_inline", "different content, inline vs heap")
+    .require("text_at_inline_threshold", "lengths 22/23");
+    if let Some(r) = args.replay_case() {
+        replay(&mut m, &r, args.seed);
+        finish_all(&args, vec![m]);
+    }
+    let per_shard = (args.n(200_000, 3_000_000) / SHARDS).max(1);
+    let max_long = args.n(100_000, 1_000_000) as usize;
+    let mutations = 3;
+    let rounds = args.n(24, 240).max(2);
+    let threads = cores().min(SHARDS as usize);
+    let parts = par_shards(threads, |i, n| {
+        let mut w = m.worker();
+        let mut shard = i as u64;
+        while shard < SHARDS {
+            run_shard(&mut w, args.seed, shard, per_shard, max_long, mutations);
+            shard += n as u64;
+        }
+        let mut round = i as u64;
+        while round < rounds {
+            pool_round(&mut w, args.seed, round);
+            round += n as u64;
+        }
+        w
+    });
+    for p in parts {
+        m.absorb(p);
+    }
+    if m.counters.get("repr_not_as_expected").copied().unwrap_or(0) > 0 {
+        m.inconclusive("a value was not stored in the representation its length implies: the static/inline/heap labels of the pair oracle cannot be trusted");
+    }
+    finish_all(&args, vec![m]);
 }
